@@ -44,6 +44,9 @@ def main(argv=None) -> int:
         cg = CallGraph(ix)
         chk = Check(prop, args.tier, seed, ix, cg)
         chk.floor("non-test modules parsed", len(ix.modules), 55)
+        if ix.names_normalised:
+            chk.info["names_normalised"] = ix.names_normalised
+            print(f"note: renamed private names read back under their confirmed spelling: {ix.names_normalised}")
         mod.run(chk)
         if args.tier == "thorough" and hasattr(mod, "run_thorough"):
             mod.run_thorough(chk)
